@@ -215,6 +215,9 @@ func runC14(r *Report, rng *rand.Rand, thorough bool) {
 	hcases := NewCases("cases_C14_history", "From V Require Import Model.Chain Corr.Eval.",
 		"flavour * bool * list mw * option (list mw) * nat * list event", "mismatches_chain_hist")
 	defer hcases.WriteTo(r)
+	// gin without a strict layer: middlewares that pass, abort, or write to the response and pass
+	gcases := NewCases("cases_C14_gin", "From V Require Import Model.Chain Corr.Eval.", "list gmw * list event", "mismatches_gin_writes")
+	defer gcases.WriteTo(r)
 	for _, sc := range scenarios {
 		id := sc["id"].(string)
 		m := metas[id]
@@ -241,6 +244,26 @@ func runC14(r *Report, rng *rand.Rand, thorough bool) {
 			cases.Add(fmt.Sprintf("(%s, %v, %s, %s, %s)", coqFlavour[m.v.fw], m.v.ftl, coqMws(m.n, m.short), strictTerm, tr), replay)
 		} else {
 			hcases.Add(fmt.Sprintf("(%s, %v, %s, %s, %d, %s)", coqFlavour[m.v.fw], m.v.ftl, coqMws(m.n, m.short), strictTerm, m.warm, tr), replay)
+		}
+		if m.v.fw == "gin" && !m.v.strict && m.warm == 0 {
+			writes := 0
+			if o, ok := sc["opts"].(map[string]any); ok {
+				if k, ok := o["mw_writes"].(int); ok {
+					writes = k
+				}
+			}
+			var gm []string
+			for i := 0; i < m.n; i++ {
+				switch {
+				case i == m.short:
+					gm = append(gm, "GAbort")
+				case i+1 == writes:
+					gm = append(gm, "GWrite")
+				default:
+					gm = append(gm, "GPass")
+				}
+			}
+			gcases.Add(fmt.Sprintf("([%s], %s)", strings.Join(gm, "; "), tr), replay)
 		}
 		r.Count(id, m.n+m.sn > 0)
 		r.Dist["fw="+m.v.fw]++
